@@ -1,5 +1,134 @@
-//! Native full-domain sweeps (filled in with C10/C14/C20).
-pub fn main(_args: &[String]) {
-    eprintln!("no sweep implemented yet");
-    std::process::exit(2);
+//! Native full-domain sweeps. The expected classification comes from an interval table exported
+//! from the TLA+ specification (spec/MB2TypeIds.tla); this file only interprets such tables:
+//!   table = [{"lo": [4 bytes LE], "hi": [4 bytes LE], "class": "<name>", "disc": [4 bytes LE]?}, ...]
+//! and compares, for every 32-bit value, the implementation's answer with the table's.
+
+use super::conv;
+use multiboot2::{MemoryAreaType, MemoryAreaTypeId, TagType, TagTypeId};
+use serde_json::{json, Value};
+use std::sync::atomic::{AtomicU64, Ordering};
+use std::sync::Mutex;
+
+struct Row {
+    lo: u32,
+    hi: u32,
+    class: String,
+    disc: Option<u32>,
+}
+
+fn le(v: &Value) -> u32 {
+    v.as_array().unwrap().iter().enumerate().fold(0u32, |a, (i, b)| a | ((b.as_u64().unwrap() as u32) << (8 * i)))
+}
+
+fn load_table(path: &str, name: &str) -> Vec<Row> {
+    let v: Value = serde_json::from_str(&std::fs::read_to_string(path).expect("table file")).expect("table json");
+    v[name]
+        .as_array()
+        .expect("table")
+        .iter()
+        .map(|r| Row { lo: le(&r["lo"]), hi: le(&r["hi"]), class: r["class"].as_str().unwrap().to_string(), disc: r.get("disc").map(le) })
+        .collect()
+}
+
+fn variant<T: std::fmt::Debug>(t: &T) -> String {
+    let s = format!("{t:?}");
+    s.split('(').next().unwrap_or("").to_string()
+}
+
+/// what the implementation says about x, reduced to (class, disc, all identities hold)
+fn probe(which: &str, x: u32) -> (String, Option<u32>, bool) {
+    match which {
+        "tag_type" => {
+            let t = TagType::from(x);
+            let id = TagTypeId::from(x);
+            let ok = u32::from(t) == x
+                && t.val() == x
+                && u32::from(id) == x
+                && TagType::from(id) == t
+                && u32::from(TagTypeId::from(t)) == x
+                && id == x
+                && x == id
+                && t == x
+                && x == t
+                && t == id
+                && id == t
+                && !(id == x.wrapping_add(1))
+                && !(t == x.wrapping_add(1))
+                && !(t == TagTypeId::from(x ^ 0x8000_0000))
+                && match t {
+                    TagType::Custom(c) => c == x,
+                    _ => true,
+                };
+            (variant(&t), None, ok)
+        }
+        "mem_area_type" => {
+            let id = MemoryAreaTypeId::from(x);
+            let t = MemoryAreaType::from(id);
+            let ok = u32::from(id) == x
+                && u32::from(MemoryAreaTypeId::from(t)) == x
+                && id == t
+                && t == id
+                && !(MemoryAreaTypeId::from(x.wrapping_add(1)) == t)
+                && match t {
+                    MemoryAreaType::Custom(c) => c == x,
+                    _ => true,
+                };
+            (variant(&t), None, ok)
+        }
+        "elf_type" => match conv::elf_class(x) {
+            None => ("unused".to_string(), None, true),
+            Some(d) => ("used".to_string(), Some(d), true),
+        },
+        _ => panic!("unknown sweep"),
+    }
+}
+
+pub fn main(args: &[String]) {
+    // sweep <which> <table.json> <table name> [stride]
+    let which = args[0].clone();
+    let rows = load_table(&args[1], &args[2]);
+    let stride: u64 = args.get(3).map(|s| s.parse().unwrap()).unwrap_or(1);
+    // the table must partition 0..2^32-1
+    let mut next: u64 = 0;
+    for r in &rows {
+        assert_eq!(r.lo as u64, next, "table is not a partition");
+        next = r.hi as u64 + 1;
+    }
+    assert_eq!(next, 1u64 << 32, "table is not a partition");
+    let threads = std::thread::available_parallelism().map(|n| n.get()).unwrap_or(8) as u64;
+    let bad = AtomicU64::new(0);
+    let checked = AtomicU64::new(0);
+    let samples: Mutex<Vec<Value>> = Mutex::new(Vec::new());
+    std::thread::scope(|s| {
+        for t in 0..threads {
+            let (rows, which, bad, checked, samples) = (&rows, &which, &bad, &checked, &samples);
+            s.spawn(move || {
+                let chunk = (1u64 << 32) / threads;
+                let (from, to) = (t * chunk, if t == threads - 1 { 1u64 << 32 } else { (t + 1) * chunk });
+                let mut ri = rows.iter().position(|r| (r.lo as u64) <= from && from <= r.hi as u64).unwrap();
+                let mut n = 0u64;
+                let mut x = from;
+                while x < to {
+                    while (rows[ri].hi as u64) < x {
+                        ri += 1;
+                    }
+                    let row = &rows[ri];
+                    let (class, disc, ok) = probe(which, x as u32);
+                    n += 1;
+                    if class != row.class || !ok || (row.disc.is_some() && disc != row.disc) {
+                        let b = bad.fetch_add(1, Ordering::Relaxed);
+                        if b < 5 {
+                            samples.lock().unwrap().push(json!({"x": x, "impl_class": class, "spec_class": row.class, "impl_disc": disc, "spec_disc": row.disc, "identities": ok}));
+                        }
+                    }
+                    x += stride;
+                }
+                checked.fetch_add(n, Ordering::Relaxed);
+            });
+        }
+    });
+    println!(
+        "{}",
+        json!({"sweep": which, "checked": checked.load(Ordering::Relaxed), "mismatches": bad.load(Ordering::Relaxed), "samples": *samples.lock().unwrap()})
+    );
 }
